@@ -169,7 +169,7 @@ class _Sim:
 
 
 def _target(name, data):
-    return data["yr"] if name in ("linreg", "treereg", "inplace-linreg", "warmstart-linreg") else data["y"]
+    return data["yr"] if name in ("linreg", "treereg", "inplace-linreg", "warmstart-linreg", "knn-callable") else data["y"]
 
 
 def _reference(sim, name, data, method):
@@ -486,7 +486,7 @@ def _run_transfer(c, sim):
             if ch.boolean("w", 0.25, "fit-on-frame"):
                 Xfit = U.as_frame(cur["X"])  # the wrapped estimator was trained on a plain array
                 c.probe("transfer_fitted_on_a_frame")
-            args = (Xfit, _target(name, cur)) + ((cur["w"],) if cur["w"] is not None else ())
+            args = (Xfit, _target(name, cur)) + ((cur["w"],) if cur["w"] is not None and name != "knn-callable" else ())  # KNeighborsRegressor.fit takes no weights
             snapshot = pickle.loads(pickle.dumps(original))
             ok, r = U.sut(c, op, tt.fit, *args)
             if ok:
@@ -546,7 +546,7 @@ def _run_transfer(c, sim):
                 # transfer was fitted) on the current data gives
                 ref = pickle.loads(pickle.dumps(trained_from)) if trained_from is not None else MODELS[name][0]()
                 sim.env()
-                args = (cur["X"], _target(name, cur)) + ((cur["w"],) if cur["w"] is not None and name != "pca" else ())
+                args = (cur["X"], _target(name, cur)) + ((cur["w"],) if cur["w"] is not None and name not in ("pca", "knn-callable") else ())
                 if name == "pca":
                     ref.fit(cur["X"], _target(name, cur))
                 else:
